@@ -1498,6 +1498,25 @@ _ical_proc(struct ical_parser_s p[static 1U])
 				/* bang run_as */
 				p->ve.t.run_as = p->globve.t.run_as;
 			}
+			/* calendar-wide user or group names are shared by
+			 * all events so far, every task must own its strings */
+			with (const char *s) {
+				if ((s = nummapstr_str(p->ve.t.owner)) != NULL &&
+				    s == nummapstr_str(p->globve.t.owner)) {
+					p->ve.t.owner =
+						nummapstr_bang_str(strdup(s));
+				}
+				if ((s = nummapstr_str(p->ve.t.run_as.u)) != NULL &&
+				    s == nummapstr_str(p->globve.t.run_as.u)) {
+					p->ve.t.run_as.u =
+						nummapstr_bang_str(strdup(s));
+				}
+				if ((s = nummapstr_str(p->ve.t.run_as.g)) != NULL &&
+				    s == nummapstr_str(p->globve.t.run_as.g)) {
+					p->ve.t.run_as.g =
+						nummapstr_bang_str(strdup(s));
+				}
+			}
 			/* copy global scale */
 			p->ve.cal = p->globve.cal;
 			/* reset to unknown state */
